@@ -24,6 +24,7 @@ CONSTANTS
   HeldMs = %d
   MaxTime = %d
   MaxOps = %d
+  Lax = 0
   LongAgo <- %s
 %s
 PROPERTY DuplicateInert
@@ -328,12 +329,17 @@ def run(ctx):
             sig = 'C03:%s:%s-after-%s' % (info.get('monitor') or 'step', fe.get('op', 'end'), pe.get('op', 'start'))
             ctx.violation(sig, 'switch controller execution not explained by Switches spec (unit %dms) at line %s: %s (prev %s)'
                           % (u, info.get('line'), fe, pe), {'job': [jobs[i][0], u, jobs[i][2], jobs[i][3]], 'trace': traces[i], 'info': info})
+    from drivers import c03_suite
+    c03_suite.suite_traces(ctx)
     ctx.assumptions += ['virtual time; one report at a time (no report from inside a switch handler)',
                         'ignore_window_ms (recycle) switches are not part of this model']
 
 
 def replay(ctx, data):
     d = data['replay']
+    if d.get('kind') == 'suite':
+        from drivers import c03_suite
+        return c03_suite.suite_traces(ctx, modules=[d['src'].split('::')[0].split('/')[-1][:-3]])
     sched, u = d['job'][0], d['job'][1]
     tr = exec_schedule(tuple(d['job']))
     print('replay trace:', tr['ev'])
